@@ -119,7 +119,7 @@ fn patterns(n: usize) -> Vec<Vec<bool>> {
         .collect()
 }
 
-fn generic_view<'a>(q: &'a Q) -> HamView<'a> {
+fn generic_view<'a, R: rand::Rng>(q: &'a Qmc<R, FastOps>) -> HamView<'a> {
     let js = serde_json::to_value(q.get_bonds()).unwrap();
     let vars: Vec<Vec<usize>> = js
         .as_array()
@@ -340,7 +340,7 @@ fn fold_g<R: rand::Rng>(g: &G<R>) -> Result<Vec<Vec<bool>>, String> {
         )
     })
 }
-fn fold_q(q: &Q) -> Result<Vec<Vec<bool>>, String> {
+fn fold_q<R: rand::Rng>(q: &Qmc<R, FastOps>) -> Result<Vec<Vec<bool>>, String> {
     catch(|| {
         q.imaginary_time_fold(
             |mut acc: Vec<Vec<bool>>, s: &[bool]| {
@@ -355,7 +355,7 @@ fn fold_q(q: &Q) -> Result<Vec<Vec<bool>>, String> {
 fn snap_g<R: rand::Rng>(g: &G<R>) -> Snap {
     snap(g.get_manager_ref(), g.state_ref())
 }
-fn snap_q(q: &Q) -> Snap {
+fn snap_q<R: rand::Rng>(q: &Qmc<R, FastOps>) -> Snap {
     snap(q.get_manager_ref(), q.state_ref())
 }
 
@@ -435,7 +435,7 @@ fn generic_single(ctx: &mut Ctx, q: &mut Q, rel: &str, call: &str, f: impl FnOnc
 }
 
 /// Like `generic_single`; the closure's verdict is an extra (real-code-only) oracle clause.
-fn generic_single_x(ctx: &mut Ctx, q: &mut Q, rel: &str, call: &str, f: impl FnOnce(&mut Q) -> Result<(), String>) -> bool {
+fn generic_single_x<R: rand::Rng>(ctx: &mut Ctx, q: &mut Qmc<R, FastOps>, rel: &str, call: &str, f: impl FnOnce(&mut Qmc<R, FastOps>) -> Result<(), String>) -> bool {
     let b = snap_q(q);
     let sweep = q.get_cutoff();
     let r = catch(|| f(q));
@@ -605,6 +605,28 @@ fn gen_ising_spec(r: &mut SplitMix64, force_h: Option<bool>) -> IsingSpec {
             }
         })
         .collect();
+    let mut edges: Vec<((usize, usize), f64)> = edges;
+    // a variable without any real coupling: no edge at all (index gap) or only J = 0 edges
+    if nvars >= 3 && r.chance(1, 4) {
+        let v = r.below(nvars as u64 - 1) as usize; // never the largest index (it defines nvars)
+        if r.coin() {
+            edges.retain(|((a, b), _)| *a != v && *b != v);
+            let top = nvars - 1;
+            if !edges.iter().any(|((a, b), _)| *a == top || *b == top) {
+                let other = (0..nvars).find(|x| *x != v && *x != top).unwrap();
+                let mag = *r.pick(&[0.5, 1.0]);
+                edges.push(((other, top), if r.coin() { mag } else { -mag }));
+            }
+            stat("ising.isolated_variable", 1);
+        } else {
+            for e in edges.iter_mut() {
+                if (e.0).0 == v || (e.0).1 == v {
+                    e.1 = 0.0;
+                }
+            }
+            stat("ising.zero_j_variable", 1);
+        }
+    }
     let gamma = *r.pick(&[0.25, 0.5, 1.0, 1.0, 2.0]);
     let with_h = force_h.unwrap_or_else(|| r.chance(1, 2));
     let h = if with_h { *r.pick(&[0.25, 0.5, 1.0, -0.25, -0.5, -1.0]) } else { 0.0 };
@@ -962,7 +984,12 @@ fn ising_scenario(ctx: &mut Ctx, r: &mut SplitMix64, ncalls: usize, force_h: Opt
 }
 
 fn build_generic(r: &mut SplitMix64, kind: u64, nvars: usize, state: Vec<bool>, loops: bool) -> Q {
-    let mut q = Q::new_with_state(nvars, SplitMix64::new(r.next()), state, loops);
+    let rng = SplitMix64::new(r.next());
+    build_generic_with(r, kind, nvars, state, loops, rng)
+}
+
+fn build_generic_with<R: rand::Rng>(r: &mut SplitMix64, kind: u64, nvars: usize, state: Vec<bool>, loops: bool, rng: R) -> Qmc<R, FastOps> {
+    let mut q = Qmc::<R, FastOps>::new_with_state(nvars, rng, state, loops);
     match kind {
         0 => {
             // exchange type (XXZ-like) on a ring + optional sz+sx+1 site terms; loop updates
@@ -1576,6 +1603,185 @@ fn swapwit(ctx: &mut Ctx) {
     ctx.cases += 1;
 }
 
+// ------------------------------------------------------------------------------------------
+// mode loopzero: scripted exit-leg draws of the loop update (generic samplers). Every draw
+// position of a recorded `loop_update()` is re-run with the word replaced by 0, 2^11 (both make
+// `gen_range(0.0..total)` return exactly 0.0), the largest word, and words landing just below /
+// at / just above cumulative boundaries c_j/total of the leg weights of the stored bonds (dyadic
+// weights: reachable exactly). Any word is a legitimate RNG output, so every result must be
+// Consistent and Legal (in particular: no op rewritten into a zero matrix element).
+// ------------------------------------------------------------------------------------------
+struct Ctl {
+    count: usize,
+    override_at: Option<(usize, u64)>,
+    log: Vec<u64>,
+}
+
+/// SplitMix64 stream with ONE word replaced at a chosen draw position (controlled from outside;
+/// clones share the control block but carry their own stream position).
+#[derive(Clone)]
+struct CtlRng {
+    stream: SplitMix64,
+    ctl: std::rc::Rc<std::cell::RefCell<Ctl>>,
+}
+impl CtlRng {
+    fn word(&mut self) -> u64 {
+        let w = self.stream.next();
+        let mut c = self.ctl.borrow_mut();
+        let i = c.count;
+        c.count += 1;
+        let w = match c.override_at {
+            Some((p, ow)) if p == i => ow,
+            _ => w,
+        };
+        c.log.push(w);
+        w
+    }
+}
+impl RngCore for CtlRng {
+    fn next_u32(&mut self) -> u32 {
+        (self.word() >> 32) as u32
+    }
+    fn next_u64(&mut self) -> u64 {
+        self.word()
+    }
+    fn fill_bytes(&mut self, dest: &mut [u8]) {
+        for chunk in dest.chunks_mut(8) {
+            let w = self.word().to_le_bytes();
+            chunk.copy_from_slice(&w[..chunk.len()]);
+        }
+    }
+    fn try_fill_bytes(&mut self, dest: &mut [u8]) -> Result<(), rand::Error> {
+        self.fill_bytes(dest);
+        Ok(())
+    }
+}
+
+/// Words whose `gen_range(0.0..total)` value lies at (and one ulp of the 52-bit grid around) a
+/// cumulative boundary of the exit-leg weights, for every stored-op state / entrance leg of the
+/// bonds present in the configuration.
+fn boundary_words<R: rand::Rng>(q: &Qmc<R, FastOps>, present: &[usize], cap: usize) -> Vec<u64> {
+    let js = serde_json::to_value(q.get_bonds()).unwrap();
+    let mut fr: Vec<(u64, f64, f64)> = vec![]; // (mantissa, c, total)
+    for &bi in present {
+        let b = &q.get_bonds()[bi];
+        let k = js[bi]["vars"].as_array().unwrap().len();
+        let pats = patterns(k);
+        for i in pats.iter() {
+            for o in pats.iter() {
+                if !(b.at(i, o).unwrap() > 0.0) {
+                    continue;
+                }
+                for ent in 0..2 * k {
+                    let toggle = |ins: &mut Vec<bool>, outs: &mut Vec<bool>, leg: usize| {
+                        if leg < k {
+                            ins[leg] = !ins[leg]
+                        } else {
+                            outs[leg - k] = !outs[leg - k]
+                        }
+                    };
+                    let ws: Vec<f64> = (0..2 * k)
+                        .map(|ex| {
+                            let (mut ii, mut oo) = (i.clone(), o.clone());
+                            toggle(&mut ii, &mut oo, ent);
+                            toggle(&mut ii, &mut oo, ex);
+                            b.at(&ii, &oo).unwrap()
+                        })
+                        .collect();
+                    let total: f64 = ws.iter().sum();
+                    if !(total > 0.0) {
+                        continue;
+                    }
+                    let mut c = 0.0;
+                    for w in ws.iter().take(2 * k - 1) {
+                        c += *w;
+                        if c > 0.0 && c < total {
+                            let m = ((c / total) * 4503599627370496.0).round() as u64;
+                            fr.push((m, c, total));
+                        }
+                    }
+                }
+            }
+        }
+    }
+    fr.sort_by(|a, b| a.0.cmp(&b.0));
+    fr.dedup_by(|a, b| a.0 == b.0);
+    let mut words = vec![];
+    let step = std::cmp::max(1, fr.len() / std::cmp::max(1, cap));
+    for (m, c, total) in fr.into_iter().step_by(step) {
+        for mm in [m.saturating_sub(1), m, m + 1] {
+            if mm < (1u64 << 52) {
+                let val = (mm as f64 / 4503599627370496.0) * total;
+                if val == c {
+                    stat("loopzero.exact_boundary_words", 1);
+                }
+                words.push(mm << 12);
+            }
+        }
+    }
+    words
+}
+
+fn loopzero(ctx: &mut Ctx, r: &mut SplitMix64) {
+    let kind = *r.pick(&[0u64, 0, 6, 6, 2, 4, 5]);
+    let nvars = if kind == 6 { r.range(3, 4) as usize } else { r.range(2, 4) as usize };
+    let ctl = std::rc::Rc::new(std::cell::RefCell::new(Ctl { count: 0, override_at: None, log: vec![] }));
+    let rng = CtlRng { stream: SplitMix64::new(r.next()), ctl: ctl.clone() };
+    let st = gen_state(r, nvars);
+    let mut q = build_generic_with(r, kind, nvars, st, true, rng);
+    for _ in 0..r.range(2, 5) {
+        q.timestep(*r.pick(&[1.0, 2.0, 4.0]));
+    }
+    if q.get_n() == 0 {
+        return;
+    }
+    stat(&format!("loopzero.kind{}", kind), 1);
+    let base = q.clone();
+    // reference run: how many words does this loop update draw?
+    {
+        let mut c = ctl.borrow_mut();
+        c.count = 0;
+        c.override_at = None;
+        c.log.clear();
+    }
+    let mut refrun = base.clone();
+    if catch(|| refrun.loop_update()).is_err() {
+        return;
+    }
+    let ndraws = ctl.borrow().log.len();
+    let present: Vec<usize> = {
+        let mut v: Vec<usize> = snap_q(&base).ops.iter().map(|o| o.bond).collect();
+        v.sort_unstable();
+        v.dedup();
+        v
+    };
+    let bwords = boundary_words(&base, &present, 10);
+    for pos in 0..std::cmp::min(ndraws, 24) {
+        let mut words: Vec<u64> = vec![0, 1 << 11, u64::MAX];
+        if pos >= 1 && pos <= 3 {
+            words.extend(bwords.iter().cloned());
+        }
+        for w in words {
+            {
+                let mut c = ctl.borrow_mut();
+                c.count = 0;
+                c.override_at = Some((pos, w));
+                c.log.clear();
+            }
+            let mut qq = base.clone();
+            let call = format!("loop_update[word{}:={}]", pos, w);
+            generic_single_x(ctx, &mut qq, "loop", &call, |q| {
+                q.loop_update();
+                Ok(())
+            });
+            if w >> 12 == 0 {
+                stat("loopzero.zero_draws", 1);
+            }
+        }
+    }
+    ctl.borrow_mut().override_at = None;
+}
+
 /// Run one scenario; a panic that escapes the per-call guards (only possible once the real code
 /// misbehaves) is reported as a failing case instead of killing the harness.
 fn guarded(ctx: &mut Ctx, what: &str, f: impl FnOnce(&mut Ctx)) {
@@ -1638,6 +1844,13 @@ fn main() {
             }
         }
         "swapwit" => guarded(&mut ctx, "swapwit", |ctx| swapwit(ctx)),
+        "loopzero" => {
+            let n = if a.thorough { 500 } else { 120 };
+            for _ in 0..n {
+                let mut rr = SplitMix64::new(r.next());
+                guarded(&mut ctx, "loopzero", |ctx| loopzero(ctx, &mut rr));
+            }
+        }
         m => {
             eprintln!("unknown mode {}", m);
             std::process::exit(2);
